@@ -48,4 +48,15 @@ CHECKS = {
               'dictionaries, recasing, TLV presence, and a malformed stream for the scanner.'),
         note=COMMON_NOTE + 'str.lower/int()/strptime/strftime/f-string formatting modelled on ASCII input only and swept, not verified. Dates outside 1969..2068 cannot round-trip through a two-digit year (format limit, excluded from the domain; see DESIGN.md).',
         technique='Lean 4 theorems (structural scan lemmas, decide +kernel over 0..999 and calendar tables, omega) on a hand-written model; differential correspondence'),
+    'C08': dict(
+        text=('Proof (splitters). Props/C08.lean over the model of split_sms / split_sms_udh / detect_format (after repairs '
+              'c0f1520, abb179b): for every text the SAR segments have at most 254 octets, the UDH segments carry '
+              '05 00 03 ref tot seq / 06 08 04 hi lo tot seq with seq = 1..tot in order, tot <= 255, and payloads of at most '
+              '153/152 septets (160 with the header) or 134/132 octets (<= 140 with the header); in both methods the '
+              'payloads, decoded one by one by a strict independent decoder (GSM table / UTF-16BE) and concatenated, give '
+              'exactly the text, hence no boundary inside an escape or surrogate pair. Core lemma: the chunk loop cuts only '
+              'at unit boundaries (induction over the loop, any length). The per-segment PDU fields (clone, SAR TLVs) are '
+              'tied by the PDU-level correspondence of C03/C06, not yet by a theorem.'),
+        note=COMMON_NOTE + 'The UCS2 path is modelled on UTF-16 code units (code chunks octets with even sizes; evenness is a decide obligation on the regenerated constants). CPython utf_16_be codec modelled and swept. Encodings other than gsm0338/ucs2 take the UCS2 path in the code and in the model (property domain: the two alphabets).',
+        technique='Lean 4 theorems (induction over the chunk loop with a unit-boundary invariant; GSM/UTF-16 round-trip lemmas); differential correspondence + independent-receiver predicate'),
 }
